@@ -613,6 +613,49 @@ func c12Run(c *engine.Ctx) {
 			}
 		}
 	}
+	// --yaml-output frames a stream of documents: every sequence of <= 3 inputs x queries that emit zero, one or several
+	// values per input; the text must read back with --yaml-input as exactly the sequence -c prints
+	c.Sub("yaml-streams")
+	{
+		docs := []string{`1`, `2`, `"a"`, `null`, `[]`, `{"a":[1]}`, `[1,[2]]`}
+		queries := []string{".", `select(type == "number")`, "select(. == 1)", "empty", "., .", ".[]?", "select(. != null)", "if . == 2 then empty else ., [.] end", "select(. == 2), select(type == \"array\")", "null", ".a?"}
+		var seqs [][]string
+		var rec func(cur []string)
+		rec = func(cur []string) {
+			seqs = append(seqs, append([]string{}, cur...))
+			if len(cur) == 3 {
+				return
+			}
+			for _, d := range docs {
+				rec(append(cur, d))
+			}
+		}
+		rec(nil)
+		for si, seq := range seqs {
+			if !c.MineIdx(si) || c.Expired() {
+				continue
+			}
+			stdin := strings.Join(seq, " ")
+			for _, q := range queries {
+				for _, extra := range [][]string{nil, {"-s"}} {
+					c.Eval()
+					y := RunCLIString(append(append([]string{}, extra...), "--yaml-output", q), stdin)
+					j := RunCLIString(append(append([]string{}, extra...), "-c", q), stdin)
+					if y.Status != j.Status {
+						c.Violation(fmt.Sprintf("yaml-stream %q %q %v", stdin, q, extra), "yaml", map[string]any{"why": fmt.Sprintf("status %d with --yaml-output, %d with -c", y.Status, j.Status)})
+						continue
+					}
+					b := RunCLIString([]string{"-c", "--yaml-input", "."}, y.Stdout)
+					c.DistinctN(1)
+					c.Outcome(fmt.Sprintf("yaml stream of %d documents", min(strings.Count(j.Stdout, "\n"), 3)))
+					if b.Status != 0 || b.Stdout != j.Stdout {
+						c.Violation(fmt.Sprintf("yaml-stream %q %q %v", stdin, q, extra), "yaml", map[string]any{"why": fmt.Sprintf("%v %s on %q written with --yaml-output is %q, which reads back as %q (status %d); -c prints %q", extra, q, stdin, y.Stdout, b.Stdout, b.Status, j.Stdout)})
+					}
+				}
+			}
+		}
+		c.Sample(map[string]any{"stdin": `2 1 3`, "query": `select(. == 1)`, "sequences": len(seqs), "queries": len(queries)})
+	}
 	c.Sample(map[string]any{"yaml_numbers": "sign x integer spelling (decimal, padded, underscores, 0x/0o/0b, 21 digits) x fraction (none, '.', .5, .50, .0) x exponent (none, e3, E3, e+03, e-2, e0) in 4 document shapes x 5 commands", "oracle": "stdout is well-formed JSON; --yaml-output | --yaml-input gives the same numbers"})
 }
 
@@ -673,7 +716,7 @@ func c12DecodeNumbers(text string) any {
 func c12Replay(v *engine.Violation) (bool, string) {
 	d := v.Detail
 	switch v.Check {
-	case "yaml-numbers":
+	case "yaml-numbers", "yaml-streams":
 		return true, fmt.Sprint(d["why"])
 	case "strings", "numbers":
 		msg := c12Value(univ.FromTagged(d["value"]), true)
@@ -696,7 +739,7 @@ func init() {
 		ID:    "C12",
 		Level: "exploration",
 		Rule: "all strings of length <= 2 over a 48-piece byte alphabet (control bytes, quote, backslash, DEL, every UTF-8 lead/continuation class, surrogate encodings, U+2028/9, U+FFFD, boundary code points; all strings of length 3 over all of them, thorough also length 4 over 18 of them) as value, object key and nested; ~50 numbers (float64 bit-pattern classes and format thresholds, NaN/inf, json.Number literals, big integers); containers of every depth 0..100, 129, 200 (thorough every depth to 260, 500, 1000), width up to 1000 (9000), sizes around the 8 KiB flush threshold; " +
-			"each rendered by Marshal, tojson, tostring, @json, @text and the command's encoder in every option combination (compact, indent 0..9, tab, each plain and coloured), read back with encoding/json and compared (modulo NaN->null, inf saturation, U+FFFD per invalid byte), all modes compared modulo insignificant white space and SGR sequences, indentation = depth x unit on every line; encoder/Marshal reuse histories; the same strings through the real command line and a YAML output/input round trip.",
+			"each rendered by Marshal, tojson, tostring, @json, @text and the command's encoder in every option combination (compact, indent 0..9, tab, each plain and coloured), read back with encoding/json and compared (modulo NaN->null, inf saturation, U+FFFD per invalid byte), all modes compared modulo insignificant white space and SGR sequences, indentation = depth x unit on every line; encoder/Marshal reuse histories; the same strings through the real command line and a YAML output/input round trip; every sequence of <= 3 input documents x 11 queries emitting 0..2 values per input written with --yaml-output and read back as a stream.",
 		Assume:         []string{"encoding/json is the reader; go-yaml is exercised but its own quoting decisions are trusted as long as the text reads back equal"},
 		Run:            c12Run,
 		Replay:         c12Replay,
